@@ -1556,3 +1556,25 @@ M("C06-benign-find-scope-const-first", "C06", "src/cppparser/cppScope.cxx",
   "  while (type->get_subtype() == CPPDeclaration::ST_const ||\n         type->get_subtype() == CPPDeclaration::ST_typedef) {\n    if (type->as_typedef_type() != nullptr) {\n      type = type->as_typedef_type()->_type;\n    } else {\n      type = type->as_const_type()->_wrapped_around;\n    }\n  }",
   "  while (type->get_subtype() == CPPDeclaration::ST_typedef ||\n         type->get_subtype() == CPPDeclaration::ST_const) {\n    if (type->as_const_type() != nullptr) {\n      type = type->as_const_type()->_wrapped_around;\n    } else {\n      type = type->as_typedef_type()->_type;\n    }\n  }",
   benign=True)
+
+# ---------------------------------------------------------------- R09.8 (seed S6-C09)
+M("C09-has-include-name-always-expanded", "C09", "src/cppparser/cppPreprocessor.cxx",
+  "  if (needs_expansion) {\n    expand_manifests(inc, false);\n  }",
+  "  expand_manifests(inc, false);",
+  expect="R09.8|expand_has_include_function|expand_manifests#0|guarded")
+M("C09-include-name-always-expanded", "C09", "src/cppparser/cppPreprocessor.cxx",
+  "  if (!expr.empty() && (expr[0] != '\"' && expr[0] != '<')) {\n    expand_manifests(expr, false);\n  }",
+  "  if (!expr.empty()) {\n    expand_manifests(expr, false);\n  }",
+  expect="R09.8|handle_include_directive|expand_manifests#0|guarded")
+M("C09-benign-has-include-first-char-guard", "C09", "src/cppparser/cppPreprocessor.cxx",
+  "  if (needs_expansion) {\n    expand_manifests(inc, false);\n  }",
+  "  if (needs_expansion && !inc.empty() && inc[0] != '<' && inc[0] != '\"') {\n    expand_manifests(inc, false);\n  }",
+  benign=True)
+
+# ---------------------------------------------------------------- R19.b ostreambuf_iterator (seed S6-C19)
+MUTANTS.append({"id": "C19-indent-through-streambuf-iterator", "prop": "C19", "expect": "R19.b|indent|ostreambuf_iterator", "benign": False,
+  "edits": [("src/dtoolbase/indent.cxx", "#include \"indent.h\"\n", "#include \"indent.h\"\n#include <algorithm>\n#include <iterator>\n"),
+            ("src/dtoolbase/indent.cxx", "  for (int i = 0; i < indent_level; i++) {\n    out << ' ';\n  }\n", "  std::fill_n(std::ostreambuf_iterator<char>(out), indent_level, ' ');\n")]})
+MUTANTS.append({"id": "C19-benign-indent-through-ostream-iterator", "prop": "C19", "expect": None, "benign": True,
+  "edits": [("src/dtoolbase/indent.cxx", "#include \"indent.h\"\n", "#include \"indent.h\"\n#include <algorithm>\n#include <iterator>\n"),
+            ("src/dtoolbase/indent.cxx", "  for (int i = 0; i < indent_level; i++) {\n    out << ' ';\n  }\n", "  std::fill_n(std::ostream_iterator<char>(out), indent_level, ' ');\n")]})
